@@ -17,6 +17,10 @@ for d in sorted(glob.glob(os.path.join(V, "seeded", "*"))):
     how = "missed"
     if cb.get("detected"):
         how = "VIOLATION with replay" if cb.get("no_failing_input_found_lines", 0) < cb.get("violation_lines", 0) or cb.get("no_failing_input_found_lines", 0) == 0 else "VIOLATION, no-failing-input-found (facts/obligation)"
+    if not cb.get("detected"):
+        later = [k for k in sorted(m) if k.startswith("recheck") and isinstance(m[k], dict) and m[k].get("detected")]
+        if later:
+            how = "missed at first; VIOLATION with replay after strengthening (%s)" % later[-1]
     also = cb.get("also_detected_by")
     if also:
         how += "; also " + ", ".join(also)
